@@ -2033,6 +2033,9 @@ void SoPlexBase<R>::_solveRealForRationalStable(
 
       if(intParam(SoPlexBase<R>::OBJSENSE) == SoPlexBase<R>::OBJSENSE_MINIMIZE)
          sol._objVal *= -1;
+
+      // the objective offset is part of the objective value
+      sol._objVal += _rationalLP->objOffset();
    }
 
    // set objective coefficients for all rows to zero
@@ -2366,6 +2369,9 @@ void SoPlexBase<R>::_performOptIRStable(
 
       if(intParam(SoPlexBase<R>::OBJSENSE) == SoPlexBase<R>::OBJSENSE_MINIMIZE)
          sol._objVal *= -1;
+
+      // the objective offset is part of the objective value
+      sol._objVal += _rationalLP->objOffset();
    }
 
    // set objective coefficients for all rows to zero
@@ -2971,6 +2977,9 @@ void SoPlexBase<R>::_solveRealForRationalBoostedStable(
 
          if(intParam(SoPlexBase<R>::OBJSENSE) == SoPlexBase<R>::OBJSENSE_MINIMIZE)
             sol._objVal *= -1;
+
+         // the objective offset is part of the objective value
+         sol._objVal += _rationalLP->objOffset();
       }
 
       // set objective coefficients for all rows to zero
@@ -3341,6 +3350,9 @@ void SoPlexBase<R>::_performOptIRStableBoosted(
 
          if(intParam(SoPlexBase<R>::OBJSENSE) == SoPlexBase<R>::OBJSENSE_MINIMIZE)
             sol._objVal *= -1;
+
+         // the objective offset is part of the objective value
+         sol._objVal += _rationalLP->objOffset();
       }
 
       // set objective coefficients for all rows to zero
